@@ -52,7 +52,8 @@ def build_stream(g, rng, small):
         parts.append(ref.frame(payload))
         ids.append(mid)
         names.append(type(m).__name__)
-    corrupt = rng.choice(["none", "none", "magic", "length", "length-max", "length-max+1", "payload", "short-tail"])
+    corrupt = rng.choice(["none", "none", "magic", "length", "length-max", "length-max+1", "payload", "short-tail", "stray-magic",
+                          "frame-inside-frame"])
     at = rng.randrange(nframes)
     if corrupt == "magic":
         p = parts[at]
@@ -71,6 +72,10 @@ def build_stream(g, rng, small):
     elif corrupt == "payload":
         p = parts[at]
         parts[at] = p[:8 + ref.MSG_HEADER_LEN] + b"\x7f\x7f" + p[8 + ref.MSG_HEADER_LEN + 2:]   # unknown message type
+    elif corrupt == "stray-magic":
+        parts[at] = ref.MAGIC + parts[at]           # the frame's own magic is now read as a (far over-limit) length
+    elif corrupt == "frame-inside-frame":
+        parts[at] = ref.frame(parts[at])            # a frame whose payload is itself a complete frame
     elif corrupt == "short-tail":
         parts.append(ref.frame(b"x" * 80)[:rng.randrange(1, 80)])
     stream = b"".join(parts)
@@ -97,14 +102,45 @@ def expected(stream, ms):
     return out, refuse
 
 
+_PEER_CLASS = []
+FEEDS = [0]
+
+
+def _peer_class(rp_mod):
+    """a connection object of the real class whose dispatch is replaced by the recorder: bytes enter where the event loop
+    hands them over (handle_receive_data), not at the receiver"""
+    if not _PEER_CLASS:
+        import logging
+
+        class LP:
+            logger = logging.getLogger("skv-c11")
+
+        class P(rp_mod.ConnectedRemotePeer):
+            def __init__(self):
+                super().__init__(LP(), "10.9.9.9", 2412, "INCOMING", None, None, 0)
+                self.stub = Stub()
+
+            def handle_message_received(self, header, message):
+                return self.stub.handle_message_received(header, message)
+        _PEER_CLASS.append(P)
+    return _PEER_CLASS[0]
+
+
 def feed(rp_mod, chunks):
-    stub = Stub()
-    r = rp_mod.MessageReceiver(stub)
+    FEEDS[0] += 1
+    if FEEDS[0] % 8 == 0:
+        stub = Stub()
+        r = rp_mod.MessageReceiver(stub)
+        take = r.receive
+    else:
+        peer = _peer_class(rp_mod)()
+        stub = peer.stub
+        take = peer.handle_receive_data
     exc = None
     fed = 0
     for c in chunks:
         try:
-            r.receive(c)
+            take(c)
         except Exception as e:
             exc = e
             break
@@ -308,6 +344,51 @@ def real_socket_lane():
     return res
 
 
+def big_frames(lane, g, rng, n):
+    """the largest message honest nodes exchange: a data message carrying a block of exactly the maximum block size (and of
+    sizes just below it), between two small messages -- well-formed, so it must be delivered under every fragmentation"""
+    import skepticoin.networking.messages as ms
+    import skepticoin.datatypes as dt
+    import skepticoin.signing as sg
+    for k in range(n):
+        size = ref.MAX_BLOCK_SIZE - rng.choice([0, 0, 1, 4, 5, 6, 100])
+        blk = None
+        for nout in range(2745, 2700, -1):
+            for d in range(0, 200):
+                cb = dt.Transaction([dt.Input(dt.OutputReference(b"\x00" * 32, 0), sg.CoinbaseData(7, b"\x5a" * d))],
+                                    [dt.Output(1, sg.SECP256k1PublicKey(bytes([1 + i % 200]) * 64)) for i in range(nout)])
+                b = dt.Block(dt.BlockHeader(dt.BlockSummary(7, b"\x11" * 32, b"\x22" * 32, 1615757105, b"\xff" * 32, k),
+                                            dt.PowEvidence(b"\x00" * 32, b"\x00" * 32, b"\x00" * 32)), [cb])
+                ln = len(b.serialize())
+                if ln == size:
+                    blk = b
+                    break
+                if ln > size:
+                    break
+            if blk is not None:
+                break
+        if blk is None:
+            continue
+        parts, ids, names = [], [], []
+        for j, m in enumerate([ms.GetPeersMessage(), ms.DataMessage(ms.DATA_BLOCK, blk), ms.GetBlocksMessage([objgen.h32(rng)])]):
+            h = ms.MessageHeader(objgen.pick_u32(rng), 3000 + j, 0, 7)
+            parts.append(ref.frame(h.serialize() + m.serialize()))
+            ids.append(3000 + j)
+            names.append(type(m).__name__)
+        stream = b"".join(parts)
+        info = {"stream": stream, "corrupt": "none", "at": 0, "ids": ids, "names": names}
+        exp_ids, exp_refuse = expected(stream, lane.ms)
+        N = len(stream)
+        lane.c["streams"] += 1
+        lane.c["largest_legitimate_messages"] = lane.c.get("largest_legitimate_messages", 0) + 1
+        lane.check(info, exp_ids, exp_refuse, ())
+        lane.check(info, exp_ids, exp_refuse, tuple(range(1024, N, 1024)))
+        for _ in range(4):
+            kk = rng.choice([1, 3, 20, 200])
+            lane.check(info, exp_ids, exp_refuse, tuple(sorted(rng.sample(range(1, N), kk))))
+        lane.distinct += 6
+
+
 def run_shard(spec):
     env.boot(fake_scrypt=False, horizon_off=False)
     if spec.get("lane") == "real-sockets" or ("replay" in spec and spec["replay"].get("lane") == "real-sockets"):
@@ -336,6 +417,8 @@ def run_shard(spec):
         info = build_stream(g, rng, small=False)
         lane.run_stream(info, rng, exhaustive=False, nrandom=60 if len(info["stream"]) < 4000 else 12)
     socket_lane(lane, rng, 25 if quick else 600)
+    if spec["shard"] % 4 == 0:
+        big_frames(lane, g, rng, 1 if quick else 5)
     return lane.result()
 
 
@@ -349,6 +432,7 @@ def finalize(m, tier):
                 "unfragmented baseline",
         "floors": [("fragmentations", c.get("fragmentations", 0), 200000), ("three_way", c.get("three_way", 0), 100000),
                    ("refusals_observed", c.get("refusals_observed", 0), 1000), ("streams", c.get("streams", 0), 200),
-                   ("messages_delivered", c.get("messages_delivered", 0), 100000)],
+                   ("messages_delivered", c.get("messages_delivered", 0), 100000),
+                   ("largest_legitimate_messages", c.get("largest_legitimate_messages", 0), 3)],
         "extra": {"exhaustive_bound": "all 2- and 3-way cuts of every short stream (<= 330/400 bytes)"},
     }
